@@ -410,4 +410,43 @@ example :
       ⟨true, [], [], [], [], [], 1, true, [⟨0, [66]⟩]⟩ (some ⟨[⟨0, [67]⟩], 5⟩) ⟨true, true⟩
     = .issued ⟨s "a", [s "a"], [], [], [], 1, [⟨0, [1]⟩]⟩ := by decide
 
+/-! ## further examples: the hypotheses of the theorems above are satisfiable -/
+
+/-- csr_narrow_refused: token a, b; the CSR lists only a -/
+example :
+    let a : San := ⟨.dns, s "a", s "a"⟩
+    let b : San := ⟨.dns, s "b", s "b"⟩
+    sign ⟨.x5c, false, false, ⟨0, []⟩⟩ ⟨a, [a, b], .absent, none, none⟩
+      ⟨true, [], [s "a"], [], [], [], 1, true, []⟩ none ⟨true, true⟩ = .refused 403 := by decide
+
+/-- …while a CSR without any DNS name is accepted and gets both -/
+example :
+    let a : San := ⟨.dns, s "a", s "a"⟩
+    let b : San := ⟨.dns, s "b", s "b"⟩
+    sign ⟨.x5c, false, false, ⟨0, []⟩⟩ ⟨a, [a, b], .absent, none, none⟩
+      ⟨true, [], [], [], [], [], 1, true, []⟩ none ⟨true, true⟩
+    = .issued ⟨s "a", [s "a", s "b"], [], [], [], 1, [⟨0, []⟩]⟩ := by decide
+
+/-- csr_cn_refused: X5C refuses a common name equal to a SAN that is not the subject, JWK accepts it
+    (and still puts the subject into the certificate) -/
+example :
+    let a : San := ⟨.dns, s "a", s "a"⟩
+    let b : San := ⟨.dns, s "b", s "b"⟩
+    sign ⟨.x5c, false, false, ⟨0, []⟩⟩ ⟨a, [a, b], .absent, none, none⟩
+      ⟨true, s "b", [], [], [], [], 1, true, []⟩ none ⟨true, true⟩ = .refused 403 ∧
+    sign ⟨.jwk, false, false, ⟨0, []⟩⟩ ⟨a, [a, b], .absent, none, none⟩
+      ⟨true, s "b", [], [], [], [], 1, true, []⟩ none ⟨true, true⟩
+    = .issued ⟨s "a", [s "a", s "b"], [], [], [], 1, [⟨0, []⟩]⟩ := by decide
+
+/-- ext_disabled_absent: hypotheses satisfiable -/
+example :
+    sign ⟨.jwk, false, true, ⟨0, [1]⟩⟩ ⟨⟨.dns, s "a", s "a"⟩, [], .absent, none, none⟩
+      ⟨true, [], [], [], [], [], 1, true, [⟨0, [66]⟩]⟩ (some ⟨[⟨0, [67]⟩], 5⟩) ⟨true, true⟩
+    = .issued ⟨s "a", [s "a"], [], [], [], 1, []⟩ := by decide
+
+/-- ext_once with a template that echoes user extensions: forged extension replaced in place -/
+example :
+    sign ⟨.jwk, true, false, ⟨0, [1]⟩⟩ ⟨⟨.dns, s "a", s "a"⟩, [], .absent, none, none⟩
+      ⟨true, [], [], [], [], [], 1, true, []⟩ (some ⟨[⟨3, [9]⟩, ⟨0, [67]⟩], 5⟩) ⟨true, true⟩
+    = .issued ⟨s "a", [s "a"], [], [], [], 1, [⟨3, [9]⟩, ⟨0, [1]⟩]⟩ := by decide
 end Verif.SignNames
